@@ -26,6 +26,8 @@ Inductive rshape :=
 | RSumSites (e : rshape)          (* torch.sum(., -1) over site patterns *)
 | RSumCats (e : rshape)           (* torch.sum(., -3) over rate categories *)
 | RMul (a b : rshape)
+| RAdd (a b : rshape)
+| RSumLogScalers                  (* torch.cat(scalers, -2).log().sum(-2): sum over the rescaled nodes of ln scaler *)
 | RLog (e : rshape)
 | RDot (a b : rshape)             (* freqs @ . *)
 | RFreqs | RProps | RWeights
@@ -36,3 +38,9 @@ Inductive rshape :=
    what M_like.loglik / site_lik / mix compute *)
 Definition expected_return : rshape :=
   RSumSites (RMul (RLog (RDot RFreqs (RSumCats (RMul RProps (RPartials RRootOfLastTriple))))) RWeights).
+
+(* the rescaled recursions: sum over sites of weight * ( ln(freqs . mixture of the RESCALED root partial)
+   + sum of the ln scalers ) — the weight multiplies BOTH terms (M_rescale.site_loglik_rs, then M_like.loglik) *)
+Definition expected_return_rescaled : rshape :=
+  RSumSites (RMul (RAdd (RLog (RDot RFreqs (RSumCats (RMul RProps (RPartials RRootOfLastTriple))))) RSumLogScalers)
+                  RWeights).
